@@ -33,6 +33,8 @@ type Func struct {
 	Params  map[string]bool // FP names loaded
 	Written map[string]bool // Go parameter names whose memory is written
 	Unknown []Store         // stores whose address has no provenance
+	Frame   int64           // declared frame size ($frame-args)
+	body    []instr
 }
 
 type instr struct {
@@ -49,6 +51,7 @@ var (
 	reFP    = regexp.MustCompile(`^([A-Za-z_][A-Za-z0-9_]*)\+(-?\d+)\(FP\)$`)
 	reMem   = regexp.MustCompile(`^(-?(?:0x)?[0-9a-fA-F]*)\(([A-Z0-9]+)\)(?:\(([A-Z0-9]+)\*(\d)\))?$`)
 	reSB    = regexp.MustCompile(`\(SB\)`)
+	reFrame = regexp.MustCompile(`\$(\d+)(?:-\d+)?\s*$`)
 	reReg   = regexp.MustCompile(`^(?:[A-D]X|[SD]I|[SB]P|R\d+|[A-D]L|R\d+[BWL]?|X\d+|Y\d+|Z\d+|K\d)$`)
 )
 
@@ -106,6 +109,7 @@ func ParseFile(path, rel string) ([]*Func, error) {
 	var body []instr
 	flush := func() {
 		if cur != nil {
+			cur.body = body
 			analyse(cur, body)
 			funcs = append(funcs, cur)
 		}
@@ -144,6 +148,9 @@ func ParseFile(path, rel string) ([]*Func, error) {
 		if m := reText.FindStringSubmatch(line); m != nil {
 			flush()
 			cur = &Func{File: rel, Line: ln, Name: m[1], Params: map[string]bool{}, Written: map[string]bool{}}
+			if fm := reFrame.FindStringSubmatch(line); fm != nil {
+				fmt.Sscan(fm[1], &cur.Frame)
+			}
 			continue
 		}
 		if strings.HasPrefix(line, "DATA") || strings.HasPrefix(line, "GLOBL") {
